@@ -5,9 +5,16 @@
 #ifndef VERIF_PRELUDE_H
 #define VERIF_PRELUDE_H
 #include <stddef.h>
+/* R15: cbmc 6.11.0 silently ignores `__attribute__((mode(TI)))` -- bignum.h's 128-bit
+   `sexp_luint_t`/`sexp_lsint_t` would be 32-bit ints -- but honours `mode(__TI__)`.  Nothing in
+   the tree uses the identifier TI otherwise; the static assertion below keeps this honest. */
+#define TI __TI__
 #include <chibi/eval.h>
 #if SEXP_USE_BIGNUMS
 #include <chibi/bignum.h>
+#if SEXP_64_BIT && !SEXP_USE_CUSTOM_LONG_LONGS
+_Static_assert(sizeof(sexp_luint_t) == 16 && sizeof(sexp_lsint_t) == 16, "R15: 128-bit helper types must be 128 bits wide in the encoding");
+#endif
 #endif
 
 #define VERIF_FLAT(x, path) \
